@@ -109,6 +109,10 @@ def make_jobs(check, rnd):
                          "seed": 9, "hs_adv": True, "profile": "corpus-asymmetric-idle-blackout"})
             jobs.append({"cfg": dict(small, smallcert=smallcert), "script": [["deliver", 0], ["blackout"]],
                          "seed": 9, "hs_adv": True, "profile": "corpus-asymmetric-idle-blackout"})
+    # the application closes a server that has only ever been handed a datagram it dropped before initialising
+    for n in (7, 600):
+        jobs.append({"cfg": {}, "script": [["truncate", 0, n], ["drop", 0], ["close", "s", 5], ["timer", "s"], ["timer", "s"], ["timer", "s"]],
+                     "seed": 10, "hs_adv": True, "profile": "corpus-close-on-uninitialised-server"})
     for ep in "cs":
         jobs.append({"cfg": {}, "script": [["write", ep, 0 if ep == "c" else 3, 3000, False], ["drop", 0], ["drop", 0], ["drop", 0],
                                            ["timer", ep], ["drop", 0], ["timer", ep], ["drop", 0], ["timer", ep], ["drop", 0],
